@@ -253,11 +253,14 @@ pub fn check(c: &Case) -> Outcome {
                 let hs = |i: usize| (plain.t[i] - plain.t[i - 1]).abs();
                 // the shorter of the two steps before step i
                 let hp = |i: usize| if i >= 3 { hs(i - 1).min(hs(i - 2)) } else { hs(i - 1) };
+                // (never at the last reported step: a state mislabelled as xend would look like an over-long last step; C01
+                // checks there that the right-hand side was really evaluated at the step end)
+                let last = plain.t.len() - 1;
                 let k1 = match e.iter().position(|v| *v > acc_bound) {
-                    Some(1) => prob.rate_t() * hs(1) > 1.0,
-                    Some(i) if i >= 2 => hs(i) >= 2.5 * hp(i) && e[i - 1] <= 0.1 * acc_bound,
+                    Some(1) => last > 1 && prob.rate_t() * hs(1) > 1.0,
+                    Some(i) if i >= 2 && i < last => hs(i) >= 2.5 * hp(i) && e[i - 1] <= 0.1 * acc_bound,
                     _ => false,
-                } || (2..plain.t.len()).any(|i| hs(i) >= 2.5 * hp(i) && e[i] - e[i - 1] >= 0.5 * acc_bound);
+                } || (2..last).any(|i| hs(i) >= 2.5 * hp(i) && e[i] - e[i - 1] >= 0.5 * acc_bound);
                 if k1 {
                     return Outcome::viol_key("C01-overlong-step", msg);
                 }
